@@ -71,12 +71,12 @@ fn main() {
                 *v = cwd.join(v.as_str()).to_string_lossy().to_string();
             }
         };
-        for k in ["replay", "out", "journal", "hashes", "spill"] {
+        for k in ["replay", "out", "journal", "hashes", "spill", "history"] {
             if let Some(v) = m.get_mut(k) {
                 abs(v);
             }
         }
-        if matches!(cmd, "distinct" | "artefacts" | "diag") {
+        if matches!(cmd, "distinct" | "artefacts" | "diag" | "together") {
             pos.iter_mut().for_each(abs);
         }
     }
@@ -102,8 +102,32 @@ fn main() {
         silence_stderr();
         engine::panics::install_hook();
         let src = std::fs::read_to_string(&pos[0]).expect("read source");
+        // --history <json file with a list of source texts>: compiled first, in this process
+        if let Some(h) = m.get("history") {
+            let hs: Vec<String> = serde_json::from_slice(&std::fs::read(h).expect("read history")).expect("history json");
+            for t in &hs {
+                let _ = runners::artefacts::compile_artefacts(t, false, false);
+            }
+        }
         let a = runners::artefacts::compile_artefacts(&src, m.contains_key("sched"), true);
-        println!("{}", json!({"digest": a.digest(), "texts": a.texts}));
+        let mut out = json!({"digest": a.digest(), "texts": a.texts});
+        if m.contains_key("twice") {
+            let b = runners::artefacts::compile_artefacts(&src, m.contains_key("sched"), true);
+            out["digest2"] = json!(b.digest());
+            out["texts2"] = json!(b.texts);
+        }
+        println!("\nMMVRESULT {out}");
+        return;
+    }
+    if cmd == "together" {
+        // C19: start all jobs of a json list together on threads in this fresh process
+        silence_stderr();
+        engine::panics::install_hook();
+        let js: Vec<Value> = serde_json::from_slice(&std::fs::read(&pos[0]).expect("read jobs")).expect("jobs json");
+        let jobs: Vec<(String, bool)> = js.iter().map(|j| (j["text"].as_str().unwrap_or("").to_string(), j["sched"].as_bool().unwrap_or(false))).collect();
+        let r = props::c19::together_here(&jobs);
+        let out: Vec<Value> = r.iter().map(|x| match x { Ok(d) => json!({"ok": d}), Err(e) => json!({"err": e}) }).collect();
+        println!("\nMMVRESULT {}", Value::Array(out));
         return;
     }
     if cmd == "diag" {
